@@ -31,7 +31,11 @@ LEVEL_TEXT = (
     "checker c12_check holds on every model trace); for symmetric targets the numerator/denominator of swap_condition "
     "are the target products over the proposal / removed edges, i.e. the acceptance ratio is pi(g')/pi(g) (C12_ratio, "
     "C12_ratio_pi). PARTIAL: the statistical sentence (the distance to the target decreases) is a statement about the "
-    "distribution of runs, false for individual RNG outcomes, and is not proved (C12_full keeps it).")
+    "distribution of runs, false for individual RNG outcomes, and is not proved (C12_full keeps it). Non-vacuity "
+    "(Example C12_nonvacuous, the network / target / oracle stream of a real run): the hypotheses WF and NonNeg hold, "
+    "an ACCEPTED swap creates two pairings of positive target weight (7/16, 7/8) and the trace is not empty; with the "
+    "weight of one of those pairings set to 0 the same proposal is REFUSED before the uniform is drawn, and the checker "
+    "judged against that target rejects the chain that created the pairing.")
 LEVEL_NOTE = ("Trusted: Coq kernel; extraction + OCaml driver + Python harness; symmetric targets assumed (DESIGN C12); dyadic "
               "test data so float products are exact. Partial: convergence towards the target.")
 
